@@ -73,7 +73,8 @@ def sources(tier, sd):
         if tier == "quick":
             rng.shuffle(cs)
             # families built around what a statement leaves on the stacks are always in
-            must = [c for c in cs if c["fam"].startswith(("trap-loop", "goto-select", "pending", "exit-blocks", "goto-frames"))]
+            must = [c for c in cs if c["fam"].startswith(("trap-loop", "goto-select", "goto-after", "pending", "exit-blocks", "goto-frames",
+                                                          "trap-last-main", "trap-resume-in-proc", "static-order"))]
             cs = must + [c for c in cs if c not in must][:700]
         elif len(cs) > 12000:
             rng.shuffle(cs)
@@ -185,7 +186,13 @@ def run(tier, replay):
         progs.append({"id": rid, "insns": insns, "stmts": r["igen"]["stmts"], "src": s["src"], "text": s["text"], "prog": s.get("prog")})
         # 2. dynamic boundary tuples, relative to the activation entered by the innermost call
         tr = r.get("trace") or []
-        if not tr or r.get("stage") != "run" or "panic" in r:
+        if r.get("stage") == "run" and "panic" in r:
+            # the machine itself gave up while running an accepted program: a pop from an empty stack, a jump nowhere
+            rep.violation({"rendered_text": s["text"], "source": s["src"], "observed": {"panic": r["panic"]},
+                           "expected": "no execution underflows a stack or leaves the instruction list"},
+                          {"run-panic", "panic_at:" + str(r["panic"].get("loc", "")).replace("/repo/", "")}, name="runpanic")
+            continue
+        if not tr or r.get("stage") != "run":
             continue
         stmts = set(r["igen"]["stmts"])
         ops = [i["op"] for i in insns]
